@@ -1,7 +1,196 @@
 import PydlVerif.Model.JsonUtil
+import PydlVerif.Model.YannyDom
 open Lean
 namespace PydlVerif.Driver.C01
+open PydlVerif PydlVerif.Yanny
 
-def handle (_j : Json) : Except String Json := throw "C01: no model operations yet"
+/-! Executable float instance: a float cell is carried as the text numpy printed for it. -/
+
+def digits1 (s : Str) : Option Str :=
+  match s.takeWhile Char.isDigit with
+  | [] => none
+  | _ => some (s.dropWhile Char.isDigit)
+
+def expPart (s : Str) : Bool :=
+  match s with
+  | [] => true
+  | e :: r =>
+    if e == 'e' || e == 'E' then
+      let r := match r with
+        | '+' :: t => t
+        | '-' :: t => t
+        | _ => r
+      digits1 r == some []
+    else false
+
+/-- the texts Python's `float()` accepts (without surrounding blanks or `_`) -/
+def floatSyntax (t : Str) : Bool :=
+  let u := match t with
+    | '+' :: r => r
+    | '-' :: r => r
+    | _ => t
+  let l := lower u
+  if l == "inf".toList || l == "infinity".toList || l == "nan".toList then true else
+  match u with
+  | '.' :: r => match digits1 r with
+    | some r2 => expPart r2
+    | none => false
+  | _ =>
+    match digits1 u with
+    | none => false
+    | some ('.' :: r) => expPart (r.dropWhile Char.isDigit)
+    | some r => expPart r
+
+def ioText : FloatIO Str := ⟨fun _ x => x, fun _ t => if floatSyntax t then some t else none⟩
+
+/-- strings with non-ASCII characters go out as `{"u": [code points]}`: the harness reads the
+driver's output with `str.splitlines`, which also splits at U+0085, U+2028, ... -/
+def sj (s : Str) : Json :=
+  if s.all (fun c => c.toNat < 128) then Json.str (String.ofList s)
+  else Json.mkObj [("u", J.ofList (fun c => J.ofNat c.toNat) s)]
+def js (j : Json) : Except String Str := do pure (← J.str j).toList
+
+def fwJ : FW → Json
+  | .f4 => J.ofNat 4
+  | .f8 => J.ofNat 8
+
+def scJ : Sc Str → Json
+  | .int n => J.ofInt n
+  | .flt w x => Json.mkObj [("w", fwJ w), ("t", sj x)]
+  | .str s => sj s
+
+def cellJ : Cell Str → Json
+  | .one v => scJ v
+  | .many vs => J.ofList scJ vs
+
+def jsc (j : Json) : Except String (Sc Str) :=
+  match j with
+  | Json.str s => pure (.str s.toList)
+  | Json.num _ => do pure (.int (← J.int j))
+  | _ => do
+    let w ← J.fNat j "w"
+    let t ← js (← J.fld j "t")
+    pure (.flt (if w == 4 then .f4 else .f8) t)
+
+def jcell (j : Json) : Except String (Cell Str) :=
+  match j with
+  | Json.arr a => do pure (.many (← a.toList.mapM jsc))
+  | _ => do pure (.one (← jsc j))
+
+def npT (s : String) : Except String NpT :=
+  match s with
+  | "i2" => pure .i2 | "i4" => pure .i4 | "i8" => pure .i8 | "f4" => pure .f4 | "f8" => pure .f8
+  | "u2" => pure .u2 | "u4" => pure .u4 | "u8" => pure .u8 | "i1" => pure .i1 | "u1" => pure .u1
+  | "b1" => pure .b1 | "f2" => pure .f2 | "c8" => pure .c8 | "c16" => pure .c16
+  | _ =>
+    match s.toList with
+    | 'S' :: r => match parseNat r with
+      | some n => pure (.S n)
+      | none => throw s!"bad type {s}"
+    | 'U' :: r => match parseNat r with
+      | some n => pure (.U n)
+      | none => throw s!"bad type {s}"
+    | _ => throw s!"bad type {s}"
+
+def jcol (j : Json) : Except String Col := do
+  match ← J.arr j with
+  | #[n, t, l] => pure ⟨← js n, ← npT (← J.str t), ← J.nat l⟩
+  | _ => throw "col: [name, type, alen]"
+
+def jenum (j : Json) : Except String EnumDecl := do
+  match ← J.arr j with
+  | #[c, t, l] => pure ⟨← js c, ← js t, ← J.list js l⟩
+  | _ => throw "enum: [col, type, labels]"
+
+def jpair (j : Json) : Except String (Str × Str) := do
+  match ← J.arr j with
+  | #[k, v] => pure (← js k, ← js v)
+  | _ => throw "pair: [k, v]"
+
+def jtable (j : Json) : Except String (TableD Str) := do
+  pure ⟨← js (← J.fld j "name"), ← J.list jcol (← J.fld j "cols"),
+        ← J.list (J.list jcell) (← J.fld j "rows")⟩
+
+def jdoc (j : Json) : Except String (Doc Str) := do
+  pure ⟨← js (← J.fld j "comments"), ← J.list jpair (← J.fld j "hdr"),
+        ← J.list jenum (← J.fld j "enums"), ← J.list jtable (← J.fld j "tables")⟩
+
+def rtJ : RT → Json
+  | .i2 => "i2" | .i4 => "i4" | .i8 => "i8" | .f4 => "f4" | .f8 => "f8"
+  | .S n => Json.str ("S" ++ toString n)
+
+def parsedJ (p : Parsed Str) : Json :=
+  Json.mkObj [
+    ("pairs", J.ofList (fun kv => Json.arr #[sj kv.1, sj kv.2]) p.pairs),
+    ("tables", J.ofList (fun t => Json.mkObj [
+      ("name", sj t.name),
+      ("cols", J.ofList (fun c => Json.arr #[sj c.name, rtJ c.ty,
+          match c.alen with
+          | some n => J.ofNat n
+          | none => Json.null]) t.cols),
+      ("rows", J.ofList (J.ofList cellJ) t.rows)]) p.tables)]
+
+def exJ {α} (f : α → Json) : Except String α → Json
+  | .ok v => Json.mkObj [("ok", f v)]
+  | .error e => Json.mkObj [("err", Json.str e)]
+
+def tokJ (r : Except String (Str × Str)) : Json := exJ (fun p => Json.arr #[sj p.1, sj p.2]) r
+
+def handle (j : Json) : Except String Json := do
+  let op ← J.fStr j "op"
+  match op with
+  | "tok" =>
+    -- protect, get_token, trailing_comment, double braces, strip on a batch of strings
+    let ss ← J.list js (← J.fld j "s")
+    pure (J.ofList (fun s => Json.mkObj [
+      ("protect", sj (protect s)), ("token", tokJ (getToken s)),
+      ("tc", sj (trailingComment s)), ("db", sj (doubleBraces s)), ("strip", sj (strip s)),
+      ("tokp", tokJ (getToken (protect s)))]) ss)
+  | "ints" =>
+    let ns ← J.fInts j "n"
+    pure (J.ofList (fun n => Json.arr #[sj (fmtInt n),
+      match parseInt (fmtInt n) with
+      | some m => J.ofInt m
+      | none => Json.null]) ns)
+  | "parseint" =>
+    let ss ← J.list js (← J.fld j "s")
+    pure (J.ofList (fun s => match parseInt s with
+      | some m => J.ofInt m
+      | none => Json.null) ss)
+  | "struct" =>
+    let cols ← J.list jcol (← J.fld j "cols")
+    let name ← js (← J.fld j "name")
+    let enums ← J.list jenum (← J.fld j "enums")
+    pure (Json.mkObj [("struct", exJ sj (dtypeToStruct cols name enums)),
+                      ("enum", J.ofList (fun e => sj (enumText e)) enums)])
+  | "doc" =>
+    -- render the document, parse the rendering, canonical form, domain predicate
+    let d ← jdoc (← J.fld j "doc")
+    let r := renderFile ioText d
+    let p := match r with
+      | .ok t => exJ parsedJ (parseFile ioText t)
+      | .error e => Json.mkObj [("err", Json.str e)]
+    pure (Json.mkObj [("text", exJ sj r), ("parsed", p), ("canon", parsedJ (canon d)),
+                      ("ok", Json.bool (docOK ioText d))])
+  | "parse" =>
+    let t ← js (← J.fld j "text")
+    let fr := front t
+    pure (Json.mkObj [("parsed", exJ parsedJ (parseFile ioText t)),
+      ("structs", J.ofList (fun d => sj d.text) fr.structs),
+      ("enums", J.ofList (fun d => sj d.text) fr.enums),
+      ("symbols", J.ofList (fun t => Json.arr #[sj t.1, J.ofList sj t.2]) fr.tables)])
+  | "row" =>
+    -- one data line: format and re-read the row body
+    let cells ← J.list jcell (← J.fld j "cells")
+    let sch := cells.map (fun c => match c with
+      | .one (.int _) => (⟨.int, false⟩ : ColSpec)
+      | .one (.flt w _) => ⟨.flt w, false⟩
+      | .one (.str _) => ⟨.str, false⟩
+      | .many (.int _ :: _) => ⟨.int, true⟩
+      | .many (.flt w _ :: _) => ⟨.flt w, true⟩
+      | .many _ => ⟨.str, true⟩)
+    let body := fmtRowBody ioText cells
+    pure (Json.mkObj [("body", sj body), ("back", exJ (J.ofList cellJ) (parseRow ioText sch body))])
+  | _ => throw s!"C01: unknown op {op}"
 
 end PydlVerif.Driver.C01
